@@ -1023,3 +1023,51 @@ def rule_K_RED(ctx, repo):
                          'defaults after pickling or copying (dill ships decorated functions to other processes; `a + b` copies its operands), so the clone computes '
                          'different keys for the same calls - results archived by the original are missed and recomputed' % (lab, h, ', '.join(missing)), '%s:%d' % (m.rel, fn.lineno))
     ctx.ob('K-RED', 'pickling / copying hooks of keymap classes examined', True, n=max(n, 1))
+
+
+def rule_K_ENCFALLBACK(ctx, repo):
+    """K-HASH (a named encoder is the encoder): crypto.pickle / crypto.string / crypto.hash, asked for a serializer / encoding / algorithm, return that
+    encoder's output or raise.  A fallback to repr(object) / str(object) / builtin hash when the encoder fails produces a key that is not information
+    preserving (two unequal arguments whose repr hides the difference share it; builtin hash differs per process) where there used to be no key at all -
+    the plain caches raised and the safe ones evaluated uncached, both with the right result."""
+    m = repo.mod('crypto')
+    n = 0
+    WEAK = ('repr', 'str', 'hash', '__hash', 'id', 'hex')
+    for fname, choice in (('pickle', 'serializer'), ('string', 'encoding'), ('hash', 'algorithm')):
+        fi = m.functions.get(fname)
+        if fi is None:
+            raise AnalysisError('anchor vanished: klepto/crypto.py::%s' % fname)
+        fn = fi.node
+        parent = {}
+        for x in ast.walk(fn):
+            for c in ast.iter_child_nodes(x):
+                parent[c] = x
+        for r in ast.walk(fn):
+            if not (isinstance(r, ast.Return) and isinstance(r.value, ast.Call) and isinstance(r.value.func, ast.Name) and r.value.func.id in WEAK):
+                continue
+            # a bare builtin(object): allowed only where the caller asked for none (`if <choice> is None:`)
+            if not (r.value.args and isinstance(r.value.args[0], ast.Name) and r.value.args[0].id == fn.args.args[0].arg and len(r.value.args) == 1 and not r.value.keywords):
+                continue
+            n += 1
+            asked_none = False
+            in_handler = False
+            cur = r
+            while cur in parent and cur is not fn:
+                p_ = parent[cur]
+                if isinstance(p_, ast.If) and cur in p_.body:
+                    t = unparse(p_.test)
+                    if t in ('%s is None' % choice, 'not %s' % choice, '%s == None' % choice):
+                        asked_none = True
+                if isinstance(p_, ast.ExceptHandler):
+                    in_handler = True
+                cur = p_
+            ok = asked_none and not in_handler
+            ctx.ob('K-HASH', 'crypto.%s: `%s` only where no %s was asked for' % (fname, unparse(r)[:30], choice), ok)
+            if not ok:
+                ctx.fail('K-HASH', fi.qual, '%s falls back to %s' % (fname, r.value.func.id),
+                         'crypto.%s returns %s(%s) on a path where a %s was requested (%s): the key is then built from a text that does not identify the argument '
+                         '(repr hides state, builtin hash changes per process), so calls with unequal arguments share an entry or a later session misses - before, such an '
+                         'argument had no key and the call was evaluated' % (fname, r.value.func.id, r.value.args[0].id, choice,
+                                                                              'inside an exception handler' if in_handler else 'outside `if %s is None`' % choice),
+                         '%s:%d' % (m.rel, r.lineno))
+    ctx.ob('K-HASH', 'weak-encoder returns of the crypto functions examined', True, n=max(n, 1))
